@@ -22,7 +22,6 @@ NA = {
 }
 PENDING = {
     "C08": "machinery under construction (datesort pipeline simulation, DESIGN.md section 7b); not claimed until the check exists",
-    "C20": "machinery under construction (DESIGN.md section 7); not claimed until the check exists",
 }
 
 CHECKS = {
@@ -55,6 +54,15 @@ CHECKS.update({
         "technique": "deterministic simulation with fault injection on a simulated file layer: seeded fault sequences (truncation, corrupted header fields, torn bytes, failing open/fstat/mmap/malloc/write) against the real loaders and map compiler under ASan and guard pages; compiled-map lookups against the source as reference model",
         "text": "Loader robustness: images of the installed zone database and maps produced by the real compiler are damaged by seeded fault sequences placed at header fields, block boundaries and record ends, then opened, queried and closed inside one incarnation; the oracle is structural (returns within a CPU budget, no sanitizer report, no fault on the guard page behind the file image, returned strings usable). Faithfulness: for generated sources with variable-length keys and zone names that are prefixes of each other every key, each strict prefix, one-character extensions and sort-order neighbours are looked up in the compiled map and compared with the source; write faults in the compiler must leave either nothing or a complete map. Seeded enumeration of fault positions, not exhaustive.",
         "note": "Trusted: the simulated mmap (file image + ASan-poisoned slack + PROT_NONE guard; in the gcc build only the guard page), the allocator_may_return_null setting (huge allocations fail like malloc does). After a content fault the values returned are not judged. Sources are well-formed and ascending as tzmap check demands; zone name pools stay below 64 KiB (the format's 16-bit offset). A descriptor left open after a failed load is counted as a diagnostic, not a violation.",
+    },
+})
+
+CHECKS.update({
+    "C20": {
+        "engine": "env", "category": "exploration", "design_ref": "DESIGN.md section 7",
+        "technique": "deterministic simulation of the process environment: simulated clock (start, drift, jumps, failure), simulated TZ/LANG/LC_* with libc time/locale seams, locale file behind the simulated file layer; same invocation across environments must agree; locale setter op sequences against a two-slot model",
+        "text": "Each seeded invocation with fully specified input (or with --base) runs as a forked incarnation under a baseline and several simulated environments that differ in the clock only, TZ only, LC_* only and in everything; stdout and exit status must be identical. Negative controls (missing fields, no --base) must differ across clocks or the check reports a dead seam (exit 2) instead of passing. Locale direction: op sequences of the two setters, resets and failing setters (unknown name, unreadable or torn file) with parse/format probes against a two-slot model built from data/locale, and --from-locale A --locale B on dconv/dadd/dround in both option orders (all 274x274 pairs in the thorough tier) against parse-with-A then print-with-B.",
+        "note": "Trusted: the simulated clock and getenv seams (validated by the negative controls in every run), the civil weekday model. Only C/POSIX locales are installed, so libc locale leakage is made observable by seams that tag names with the simulated locale once setlocale(LC_TIME|LC_ALL, \"\") has been called. Excluded by the statement's own wording: now/today keywords, one-argument dseq, zone `localtime', 2-digit years and time-only values with a zone unless --base is given. The `strptime' helper tool (a wrapper around libc strptime) is not run. Parse probes are judged by the model only for locales whose month names are ASCII and prefix-free; all others differentially against freshly set tables.",
     },
 })
 
